@@ -159,6 +159,12 @@ def _wf(test_case, what: str) -> bool:
                 root = a.source.split(".", 1)[0]
                 if root not in bound and root != ALIAS:
                     return fail(f"{what}: an assertion of statement {idx} reads {root}, which no statement up to it binds: {code!r}")
+    # the (cached) dependency information of every statement agrees with its code
+    names = set(bound)
+    for idx, (node, st) in enumerate(zip(body, stmts)):
+        reads, cached = _free_loads(node) & names, set(st.used_variables()) & names
+        if reads != cached:
+            return fail(f"{what}: statement {idx} reads {sorted(reads)} but used_variables() says {sorted(cached)}: {code!r}")
     # the per-type registry equals a registry rebuilt from the statements
     expected: dict = {}
     for st in stmts:
